@@ -20,7 +20,7 @@ import (
 const Rule = "cases = one graph (kind, vertex count, edge list in insertion order incl. self-loops, parallel edges, " +
 	"out-of-range endpoints, zero/negative weights) + queries (paths/path for dfs, dfsi, bfs and every source, orders, " +
 	"cc, scc, cycle, topo, mst, spt/sptto) drawn from VERIF_SEED; shapes: random multigraphs with 0-9 vertices, " +
-	"disconnected and dense ones, DAGs, functional graphs, long paths/cycles/stars/binary trees with 2100-3000 vertices " +
+	"disconnected and dense ones, DAGs, functional graphs, long paths/cycles/stars/binary trees with 1030-2120 vertices " +
 	"(stack and queue blocks of 1024 crossed); non-trivial = the graph has an edge between two distinct valid vertices and " +
 	"at least one algorithm query was answered; distinct = distinct (header, op list)"
 
@@ -259,6 +259,28 @@ func ints(xs []int) string {
 	return b.String()
 }
 
+func sameInts(a, b []int) bool {
+	if len(a) != len(b) {
+		return false
+	}
+	for i := range a {
+		if a[i] != b[i] {
+			return false
+		}
+	}
+	return true
+}
+
+// scribble overwrites a slice the implementation handed out: if it was an internal buffer, a later
+// query shows the damage
+func scribble(xs []int) {
+	for i := range xs {
+		xs[i] = -7 - i
+	}
+}
+
+func clone(xs []int) []int { return append([]int(nil), xs...) }
+
 func wstr(w float64) (string, bool) {
 	i := int64(w)
 	return strconv.FormatInt(i, 10), float64(i) == w
@@ -483,30 +505,57 @@ func execOp(gp **gobj, f []string, i int, bad func(int, string, ...any), tags ma
 			path, found := p.To(v)
 			check(v, path, found)
 			*answered = true
-			if !found {
-				return "ok -"
+			out := "ok -"
+			if found {
+				out = "ok " + ints(path)
 			}
-			return "ok " + ints(path)
+			// aliasing / repeated queries on the same Paths value
+			keep := clone(path)
+			scribble(path)
+			if n > 0 {
+				other, _ := p.To((v*7 + 3) % n)
+				scribble(other)
+			}
+			again, found2 := p.To(v)
+			if found2 != found || !sameInts(again, keep) {
+				bad(i, "To(%d) answered %v,%v first and %v,%v after the caller overwrote the returned slices", v, keep, found, again, found2)
+			}
+			return out
 		}
 		var b strings.Builder
 		b.WriteString("ok")
 		if n == 0 {
 			b.WriteByte(' ')
 		}
+		keep := make([][]int, n)
+		keepOK := make([]bool, n)
 		for v := 0; v < n; v++ {
 			path, found := p.To(v)
 			check(v, path, found)
-			if v > 0 {
-				b.WriteByte(' ')
-			} else {
-				b.WriteByte(' ')
-			}
+			b.WriteByte(' ')
 			b.WriteString(strconv.Itoa(v))
 			b.WriteByte(':')
 			if found {
 				b.WriteString(ints(path))
 			} else {
 				b.WriteByte('-')
+			}
+			keep[v], keepOK[v] = clone(path), found
+			scribble(path)
+		}
+		// the same Paths value, asked again from several targets in another order (descending, then
+		// a stride through the vertices), after the caller has overwritten every slice it was given
+		for pass := 0; pass < 2; pass++ {
+			for k := 0; k < n; k++ {
+				v := n - 1 - k
+				if pass == 1 {
+					v = (k*5 + 2) % n
+				}
+				again, found := p.To(v)
+				if found != keepOK[v] || !sameInts(again, keep[v]) {
+					bad(i, "To(%d) answered %v,%v first and %v,%v when asked again (pass %d)", v, keep[v], keepOK[v], again, found, pass)
+				}
+				scribble(again)
 			}
 		}
 		*answered = true
@@ -554,31 +603,25 @@ func execOp(gp **gobj, f []string, i int, bad func(int, string, ...any), tags ma
 		tags[f[0]] = true
 		id := make([]int, n)
 		var comps [][]int
+		var getComps func() [][]int
+		var getID func(int) int
 		switch {
 		case g.kind == "undirected":
 			c := g.u.ConnectedComponents()
-			comps = c.Components()
-			for v := range id {
-				id[v] = c.ID(v)
-			}
+			getComps, getID = c.Components, c.ID
 		case g.kind == "wundirected":
 			c := g.wu.ConnectedComponents()
-			comps = c.Components()
-			for v := range id {
-				id[v] = c.ID(v)
-			}
+			getComps, getID = c.Components, c.ID
 		case g.kind == "directed":
 			c := g.d.StronglyConnectedComponents()
-			comps = c.Components()
-			for v := range id {
-				id[v] = c.ID(v)
-			}
+			getComps, getID = c.Components, c.ID
 		default:
 			c := g.wd.StronglyConnectedComponents()
-			comps = c.Components()
-			for v := range id {
-				id[v] = c.ID(v)
-			}
+			getComps, getID = c.Components, c.ID
+		}
+		comps = getComps()
+		for v := range id {
+			id[v] = getID(v)
 		}
 		// partition exactly by (mutual) reachability
 		r := g.reachAll()
@@ -630,6 +673,29 @@ func execOp(gp **gobj, f []string, i int, bad func(int, string, ...any), tags ma
 		if f[0] == "scc" {
 			b.WriteString(" cert=true")
 		}
+		// aliasing: overwrite the returned component slices, ask again
+		keepC := make([][]int, len(comps))
+		for k, comp := range comps {
+			keepC[k] = clone(comp)
+			scribble(comp)
+		}
+		again := getComps()
+		if len(again) != len(keepC) {
+			bad(i, "Components() has %d classes first and %d when asked again", len(keepC), len(again))
+		} else {
+			for k := range again {
+				if !sameInts(again[k], keepC[k]) {
+					bad(i, "Components()[%d] = %v first and %v after the caller overwrote the returned slices", k, keepC[k], again[k])
+					break
+				}
+			}
+		}
+		for v := n - 1; v >= 0; v-- {
+			if getID(v) != id[v] {
+				bad(i, "ID(%d) = %d first and %d when asked again", v, id[v], getID(v))
+				break
+			}
+		}
 		return b.String()
 
 	case "cycle":
@@ -637,7 +703,8 @@ func execOp(gp **gobj, f []string, i int, bad func(int, string, ...any), tags ma
 			return "bad-op"
 		}
 		tags["cycle"] = true
-		cyc, found := g.d.DirectedCycle().Cycle()
+		dc := g.d.DirectedCycle()
+		cyc, found := dc.Cycle()
 		want := g.hasCycle()
 		if found != want {
 			bad(i, "Cycle() ok=%v but the graph has a cycle=%v", found, want)
@@ -655,10 +722,21 @@ func execOp(gp **gobj, f []string, i int, bad func(int, string, ...any), tags ma
 			}
 		}
 		*answered = true
+		// the same DirectedCycle value asked again, after the caller overwrote the first answer
+		keepCyc := clone(cyc)
+		scribble(cyc)
+		for pass := 0; pass < 2; pass++ {
+			again, found2 := dc.Cycle()
+			if found2 != found || !sameInts(again, keepCyc) {
+				bad(i, "Cycle() answered %v,%v first and %v,%v when asked again", keepCyc, found, again, found2)
+				break
+			}
+			scribble(again)
+		}
 		if !found {
 			return "ok none"
 		}
-		return "ok " + ints(cyc)
+		return "ok " + ints(keepCyc)
 
 	case "topo":
 		if len(f) != 1 || g.kind != "directed" {
@@ -698,7 +776,25 @@ func execOp(gp **gobj, f []string, i int, bad func(int, string, ...any), tags ma
 				}
 			}
 		}
-		return "ok order=" + ints(order) + " rank=" + ints(rank)
+		out := "ok order=" + ints(order) + " rank=" + ints(rank)
+		// aliasing: overwrite the returned order, ask again
+		keepO := clone(order)
+		scribble(order)
+		for pass := 0; pass < 2; pass++ {
+			again, found2 := t.Order()
+			if !found2 || !sameInts(again, keepO) {
+				bad(i, "Order() answered %v first and %v,%v after the caller overwrote the returned slice", keepO, again, found2)
+				break
+			}
+			scribble(again)
+		}
+		for v := n - 1; v >= 0; v-- {
+			if r, _ := t.Rank(v); r != rank[v] {
+				bad(i, "Rank(%d) = %d first and %d when asked again", v, rank[v], r)
+				break
+			}
+		}
+		return out
 
 	case "mst":
 		if len(f) != 1 || g.kind != "wundirected" {
@@ -762,6 +858,25 @@ func execOp(gp **gobj, f []string, i int, bad func(int, string, ...any), tags ma
 		}
 		*answered = true
 		b.WriteString("] cert=true")
+		// aliasing: overwrite the returned edge list, ask again
+		keepE := append([]graph.UndirectedEdge(nil), es...)
+		for k := range es {
+			es[k] = graph.VerifUndirectedEdge(-1, -1, -1)
+		}
+		for pass := 0; pass < 2; pass++ {
+			again := m.Edges()
+			same := len(again) == len(keepE)
+			for k := 0; same && k < len(again); k++ {
+				same = again[k] == keepE[k]
+			}
+			if !same || m.Weight() != wt {
+				bad(i, "Edges()/Weight() = %v/%v first and %v/%v after the caller overwrote the returned slice", keepE, wt, again, m.Weight())
+				break
+			}
+			for k := range again {
+				again[k] = graph.VerifUndirectedEdge(-2, -2, -2)
+			}
+		}
 		return b.String()
 
 	case "spt", "sptto":
@@ -785,8 +900,10 @@ func execOp(gp **gobj, f []string, i int, bad func(int, string, ...any), tags ma
 		for _, e := range g.edges {
 			avail[[3]int64{int64(e.u), int64(e.v), e.w}] = true
 		}
+		var lastPath []graph.DirectedEdge
 		answer := func(v int) string {
 			path, dist, found := t.PathTo(v)
+			lastPath = path
 			if found != (want[v] != inf) {
 				bad(i, "PathTo(%d) ok=%v but reachable=%v", v, found, want[v] != inf)
 				if !found {
@@ -836,17 +953,50 @@ func execOp(gp **gobj, f []string, i int, bad func(int, string, ...any), tags ma
 				*argOOR = true
 				t.PathTo(v) // panics
 			}
-			return "ok " + answer(v) + " cert=true"
+			first := answer(v)
+			for k := range lastPath {
+				lastPath[k] = graph.VerifDirectedEdge(-1, -1, -1)
+			}
+			if n > 0 {
+				answer((v*7 + 3) % n)
+				for k := range lastPath {
+					lastPath[k] = graph.VerifDirectedEdge(-1, -1, -1)
+				}
+			}
+			if again := answer(v); again != first {
+				bad(i, "PathTo(%d) answered %s first and %s after the caller overwrote the returned slices", v, first, again)
+			}
+			return "ok " + first + " cert=true"
 		}
 		var b strings.Builder
 		b.WriteString("ok ")
+		keepA := make([]string, n)
 		for v := 0; v < n; v++ {
 			if v > 0 {
 				b.WriteByte(' ')
 			}
 			b.WriteString(strconv.Itoa(v))
 			b.WriteByte(':')
-			b.WriteString(answer(v))
+			keepA[v] = answer(v)
+			b.WriteString(keepA[v])
+			for k := range lastPath {
+				lastPath[k] = graph.VerifDirectedEdge(-1, -1, -1)
+			}
+		}
+		// the same ShortestPathTree value asked again, targets in another order
+		for pass := 0; pass < 2; pass++ {
+			for k := 0; k < n; k++ {
+				v := n - 1 - k
+				if pass == 1 {
+					v = (k*5 + 2) % n
+				}
+				if again := answer(v); again != keepA[v] {
+					bad(i, "PathTo(%d) answered %s first and %s when asked again (pass %d)", v, keepA[v], again, pass)
+				}
+				for k2 := range lastPath {
+					lastPath[k2] = graph.VerifDirectedEdge(-1, -1, -1)
+				}
+			}
 		}
 		b.WriteString(" cert=true")
 		return b.String()
